@@ -62,7 +62,7 @@ func c08ExtractCase(a vh.Args, r *vh.Result, c *c08Case) error {
 	sizes := randomSizes(rng, len(blob), 400)
 	idx := buildIndex(blob, sizes)
 	idx.Index.FeatureFlags = desync.CaFormatSHA512256
-	dir, err := freshDir(a.Work, "extract")
+	dir, err := lsFreshDir(a.Work, "extract")
 	if err != nil {
 		return err
 	}
